@@ -460,6 +460,9 @@ func realRealHandshake(k *mon.Case, cfg sessCfg) (a, b *v2transport.Peer, ca, cb
 		}
 		k.Failf(key, "real-real: %s %s failed: %v (garbage initiator %d responder %d, decoys %v / %v)", who, step, err, cfg.GarbageI, cfg.GarbageR, cfg.DecoysI, cfg.DecoysR)
 	}
+	// the first two steps are sequenced here (a read that would wait is an error) ...
+	ca.SetNonBlocking(true)
+	cb.SetNonBlocking(true)
 	if err := a.InitiateV2Handshake(cfg.GarbageI); err != nil {
 		fail("initiator", "InitiateV2Handshake", err)
 		return
@@ -468,6 +471,12 @@ func realRealHandshake(k *mon.Case, cfg sessCfg) (a, b *v2transport.Peer, ca, cb
 		fail("responder", "RespondV2Handshake", err)
 		return
 	}
+	// ... the two CompleteHandshake calls need each other's output and run concurrently on blocking reads, one
+	// goroutine per end: mutual waiting is then an exact deadlock verdict (memconn.ErrDeadlock), not a timeout
+	ca.SetNonBlocking(false)
+	cb.SetNonBlocking(false)
+	ca.SetDeadlockDetection(true)
+	defer ca.SetDeadlockDetection(false)
 	errs := make([]error, 2)
 	var wg sync.WaitGroup
 	wg.Add(2)
@@ -563,7 +572,7 @@ func runStreamsRealReal(k *mon.Case, a, b *v2transport.Peer, ca, cb *memconn.Con
 
 func sessionFamilies(c *mon.Ctx) {
 	// --- handshake only: many cheap cases over roles x garbage lengths x decoys x v1-prefix look-alike keys
-	c.Family("handshake", scaled(c, 1200, 120000), func(k *mon.Case) {
+	c.Family("handshake", scaled(c, 1200, 80000), func(k *mon.Case) {
 		r := k.Rand
 		mode := []string{"real-init", "real-resp", "real-real"}[r.PickW([]int{4, 5, 3})]
 		cfg := genSessCfg(r, mode, 0, 0)
@@ -591,7 +600,7 @@ func sessionFamilies(c *mon.Ctx) {
 	})
 
 	// --- full sessions with long streams (>= 3 rekeys per direction)
-	c.Family("stream", scaled(c, 168, 10000), func(k *mon.Case) {
+	c.Family("stream", scaled(c, 168, 6000), func(k *mon.Case) {
 		r := k.Rand
 		mode := []string{"real-init", "real-resp", "real-real"}[r.PickW([]int{2, 2, 1})]
 		cfg := genSessCfg(r, mode, 700, 2000)
